@@ -70,10 +70,13 @@ type Model struct {
 	// TLS material variants per cluster; more than one allowed value only right after a refused event (same widening).
 	Cert map[string][]int
 	CA   map[string][]int
+	// material the cluster had before its last in-place rotation (only used to classify a violation as "stale")
+	PrevCert map[string]int
+	PrevCA   map[string]int
 }
 
 func NewModel() *Model {
-	return &Model{Owner: map[string]string{}, Amb: map[string]string{}, Cert: map[string][]int{}, CA: map[string][]int{}}
+	return &Model{Owner: map[string]string{}, Amb: map[string]string{}, Cert: map[string][]int{}, CA: map[string][]int{}, PrevCert: map[string]int{}, PrevCA: map[string]int{}}
 }
 
 func (m *Model) NamesOf(c string) []string {
@@ -132,6 +135,12 @@ func (m *Model) Apply(o *ObjSpec) (refused bool) {
 	for n := range want {
 		m.Owner[n] = c
 	}
+	if old := m.Cert[c]; len(old) == 1 && old[0] != o.Cert {
+		m.PrevCert[c] = old[0]
+	}
+	if old := m.CA[c]; len(old) == 1 && old[0] != o.CA {
+		m.PrevCA[c] = old[0]
+	}
 	m.Cert[c] = []int{o.Cert}
 	m.CA[c] = []int{o.CA}
 	return false
@@ -153,6 +162,8 @@ func (m *Model) Delete(c string) {
 	}
 	delete(m.Cert, c)
 	delete(m.CA, c)
+	delete(m.PrevCert, c)
+	delete(m.PrevCA, c)
 }
 
 // Adopt resolves an ambiguous name from the observed resolution; returns false when the observation is outside the
